@@ -23,7 +23,10 @@ VERIF = os.environ.get("VERIF_DIR", os.path.dirname(os.path.abspath(__file__)))
 GO = os.environ.get("VERIF_GO", "go")
 RACE = os.environ.get("VERIF_C13_RACE") == "1"  # C14 job: the CLI is built with -race; the oracle is "no race report"
 CLI = os.path.join(VERIF, ".build" if os.path.realpath(REPO) == "/repo" else ".build-alt-%d" % os.getppid(), "dt-cli-race" if RACE else "dt-cli")
-PROP = os.environ.get("VERIF_C13_RACE_PROP", "C14") if RACE else "C13"
+PROP = os.environ.get("VERIF_C13_RACE_PROP", "C14") if RACE else os.environ.get("VERIF_C13_PROP", "C13")
+# VERIF_C13_ONLY=splitsrc: only the topology whose client picks different source addresses for UDP and TCP (a job of C20)
+ONLY = os.environ.get("VERIF_C13_ONLY", "")
+JOBNAME = "C13KernelRace" if RACE else {"splitsrc": "C20KernelSplitSrc"}.get(ONLY, "C13Kernel")
 PFX = "vf%d" % os.getpid()
 
 
@@ -134,6 +137,12 @@ class Topo:
                 # the destination silently drops everything it would send back (a filtering firewall): no reply of any kind
                 self.ns(self.n + 1, "ip route add blackhole 10.%d.0.0/24" % self.net)
                 self.ns(self.n + 1, "ip -6 route add blackhole fd00:%x:0::/64" % self.net, check=False)
+            if self.spec.get("split_src"):
+                # policy routing keyed on the protocol: UDP leaves from a second address of the client, everything else
+                # from the first, so the address discovered with a UDP socket is not the one a TCP connection gets
+                self.ns(0, "ip addr add 10.%d.0.3/24 dev l0r" % self.net)
+                self.ns(0, "ip rule add ipproto udp table 100")
+                self.ns(0, "ip route add default via %s dev l0r src 10.%d.0.3 table 100" % (self.addr(0, "r"), self.net))
             if self.spec.get("tcp_sack_off"):
                 self.ns(self.n + 1, "sysctl -qw net.ipv4.tcp_sack=0")
             if self.spec.get("tcp_ts_off"):
@@ -217,6 +226,14 @@ def check_result(t, proto, method, max_ttl, queries, e2e, res):
             bad.append("the race detector reported a data race in the CLI running over real sockets:\n" + res.get("race_report", "")[:1800])
         return bad
     sack_like = proto == "tcp" and method in ("sack", "prefer_sack")
+    if spec.get("split_src") and sack_like:
+        # the SACK attempt connects from another address than the one its probes are built for: that is a failure of its
+        # own kind, not "SACK unavailable": sack fails, and prefer_sack reports it instead of falling back to SYN
+        if res["rc"] == 0:
+            bad.append("method %s returned a trace although the SACK connection's local address differs from the discovered one (a failure that is not 'SACK unavailable' must be reported, not masked by a result)" % method)
+        elif "local addr" not in res.get("stderr_full", ""):
+            bad.append("method %s failed, but not with the local-address mismatch: %s" % (method, res["stderr"][-300:]))
+        return bad
     sack_possible = spec.get("port_open") and not spec.get("tcp_sack_off") and not spec.get("dest_filtered")
     if proto == "tcp" and method == "sack" and not sack_possible:
         if res["rc"] == 0:
@@ -457,6 +474,11 @@ def main():
         if len(specs) > 2:
             specs[2] = {"routers": 4, "port": 80, "port_open": False, "tcp_sack_off": False, "silent": [1, 3], "max_ttl_delta": -1, "queries": 3, "e2e": 1,
                         "protos": ["tcp:syn", "tcp:prefer_sack", "icmp", "udp"], "timeout_ms": 300, "concurrent_cli": False}
+    if ONLY == "splitsrc" and not replay:
+        specs = [{"routers": 2, "port": 443, "port_open": True, "tcp_sack_off": False, "silent": [], "max_ttl_delta": 1, "queries": 1, "e2e": 0, "split_src": True,
+                  "protos": ["tcp:prefer_sack", "tcp:sack", "tcp:syn", "tcp:prefer_sack"], "timeout_ms": 300, "concurrent_cli": False},
+                 {"routers": 1, "port": 8080, "port_open": True, "tcp_sack_off": False, "silent": [], "max_ttl_delta": 1, "queries": 2, "e2e": 1, "split_src": True,
+                  "protos": ["tcp:sack", "tcp:prefer_sack"], "timeout_ms": 300, "concurrent_cli": False}]
     if RACE and not replay:
         n = 2 if TIER == "quick" else 8
         rng = random.Random(SEED * 31 + 5)
@@ -487,7 +509,7 @@ def main():
     nts = [r for r in results if nontrivial(r["spec"])]
     distinct = len({json.dumps(r["spec"], sort_keys=True) + rr["proto"] + rr["method"] for r in nts for rr in r["results"]})
     failing = [r for r in results if r["violations"]]
-    stats = {"prop": PROP, "name": "C13KernelRace" if RACE else "C13Kernel", "evaluations": evals, "distinct_nontrivial": distinct, "hashes": [], "extra_distinct": distinct,
+    stats = {"prop": PROP, "name": JOBNAME, "evaluations": evals, "distinct_nontrivial": distinct, "hashes": [], "extra_distinct": distinct,
              "labels": {}, "samples": [{"spec": r["spec"], "results": [{k: rr[k] for k in ("proto", "method", "max_ttl", "rc", "hops")} for rr in r["results"]]} for r in results[:3]],
              "rule": "generated topologies (seeded): chains of 1..6 network-namespace routers joined by veth pairs with the kernel's own forwarding/ICMP/TCP, destination with open / closed / SACK-disabled port, a subset of routers with their own ICMP suppressed, max-ttl below/at/above the path length, 1..3 runs and 0..3 e2e probes per invocation, several CLI processes at once; each (topology, protocol/method) CLI invocation of the binary built from the working tree is one evaluation; oracle = the topology itself (router chain then destination, silent routers as empty hops, RTT >= 0, e2e answered iff the destination is within max-ttl, sack fails / prefer_sack falls back when the target cannot do SACK); non-trivial = >= 2 routers and (a silent router, or a closed / SACK-disabled port, or > 1 concurrent run); distinct by (topology spec, protocol)",
              "assumptions": ["real kernel and real time in the loop (timeouts 300-500 ms); IPv4 for every method, IPv6 for icmp and udp; first TTL is fixed at 1 by the CLI", "a mismatch counts only if it repeats in 3 of 3 attempts on the same topology, or in at least 4 of 8 attempts, or (two short-path topologies whose invocations are repeated 8 / 20 times) in at least 30 % of the invocations (transient packet loss/latency on a shared machine is not a property violation); retried invocations are counted under label_counts"], "exhaustive": False, "excluded_known": 0, "known_findings_seen": [], "violations": len(failing)}
@@ -499,6 +521,9 @@ def main():
                 stats["labels"]["retried-after-transient-mismatch"] = stats["labels"].get("retried-after-transient-mismatch", 0) + 1
     if infra_err and not failing:
         stats["inconclusive"] = infra_err
+    if ONLY == "splitsrc":
+        stats["rule"] = "real kernel path, two namespace topologies whose client has policy routing keyed on the protocol (UDP leaves from a second address): the address discovered with a UDP socket differs from the local address of the SACK attempt's TCP connection; each CLI invocation (tcp sack / prefer_sack / syn) is one evaluation; oracle: sack and prefer_sack fail with the local-address mismatch (a SACK failure that is not 'SACK unavailable' is reported, never answered with a SYN trace), syn reports the topology; non-trivial always"
+        stats["distinct_nontrivial"] = stats["extra_distinct"] = evals
     if RACE:
         stats["rule"] = "real kernel path under the race detector: the CLI is built with -race and traces generated namespace topologies with 3 concurrent runs + 3 e2e probes per invocation for icmp, udp, tcp syn and tcp sack over real AF_PACKET/raw sockets; oracle: no race report (GORACE halt_on_error); each CLI invocation is one evaluation; non-trivial = >= 2 routers and > 1 concurrent run"
     json.dump(stats, open(os.path.join(OUT, "stats-%s-0.json" % stats["name"]), "w"))
@@ -511,7 +536,7 @@ def main():
             except Exception:
                 pass
         json.dump({"property": PROP, "test": stats["name"], "scenario": spec, "diffs": [{"prop": PROP, "sig": "race-report" if RACE else "topology-mismatch", "msg": v} for v in first["violations"][:6]],
-                   "results": first["results"]}, open(os.path.join(OUT, "failure-%s-%s-0.json" % (PROP, "C13KernelRace" if RACE else "C13Kernel")), "w"), indent=1)
+                   "results": first["results"]}, open(os.path.join(OUT, "failure-%s-%s-0.json" % (PROP, JOBNAME)), "w"), indent=1)
         for v in first["violations"][:6]:
             print("%s [%s] %s" % (PROP, "race-report" if RACE else "topology-mismatch", v))
         print("--- FAIL: C13Kernel (%d of %d topologies)" % (len(failing), len(results)))
